@@ -31,19 +31,25 @@ def scanLine (value : List Nat) (lineNo colStart : Nat) : List Nat → Nat → N
       if ni + 1 ≥ value.length then (ni + 1, offs', true) else scanLine value lineNo colStart rest (gi + 1) (ni + 1) offs'
     else scanLine value lineNo colStart rest (gi + 1) ni offs
 
+/-- the "append new line but only if we already have any tokens" step -/
+def prevBreak (offs : List PR) (li prevLen : Nat) : List PR :=
+  if offs.isEmpty then offs else appendPos offs (li - 1) (prevLen + 1)
+
+/-- one line of the outer loop up to the `NEXT` label: column adjustment and the byte scan -/
+def lineStep (value : List Nat) (li col ni : Nat) (offs1 : List PR) (line : List Nat) : Nat × List PR × Bool :=
+  if line.length = 0 then (ni, offs1, false)
+  else
+    let col1 := min line.length col
+    let ls := countLeadingSpace (line.drop (col1 - 1))
+    let vs := countLeadingSpace (value.drop ni)
+    let col2 := if ls > vs then col1 + (ls - vs) else col1
+    scanLine value li col2 (line.drop (col2 - 1)) 0 ni offs1
+
 /-- the outer `for lineIndex <= len(lines)` loop, one iteration per remaining line -/
 def nprLoop (value : List Nat) (minCol : Nat) : List (List Nat) → Nat → Nat → Nat → Nat → List PR → List PR
   | [], _, _, _, _, offs => offs
   | line :: rest, li, prevLen, col, ni, offs =>
-    let offs1 := if offs.isEmpty then offs else appendPos offs (li - 1) (prevLen + 1)
-    let r : Nat × List PR × Bool :=
-      if line.length = 0 then (ni, offs1, false)
-      else
-        let col1 := min line.length col
-        let ls := countLeadingSpace (line.drop (col1 - 1))
-        let vs := countLeadingSpace (value.drop ni)
-        let col2 := if ls > vs then col1 + (ls - vs) else col1
-        scanLine value li col2 (line.drop (col2 - 1)) 0 ni offs1
+    let r := lineStep value li col ni (prevBreak offs li prevLen) line
     if r.2.2 then r.2.1
     else
       let need := value[r.1]?
@@ -51,28 +57,31 @@ def nprLoop (value : List Nat) (minCol : Nat) : List (List Nat) → Nat → Nat 
         (if r.1 + 1 ≥ value.length then r.2.1 else nprLoop value minCol rest (li + 1) line.length minCol (r.1 + 1) r.2.1)
       else nprLoop value minCol rest (li + 1) line.length minCol r.1 r.2.1
 
-/-- `NewPositionRange(lines, val, minColumn)`; result oldest-first -/
+/-- `NewPositionRange(lines, val, minColumn)`; result oldest-first. When the value is not found in the
+    source lines the node's own start, clamped into the file, is returned. -/
 def newPositionRange (lines : List (List Nat)) (value : List Nat) (vLine vCol minCol : Nat) : List PR :=
   if value.length = 0 then [⟨vLine, vCol, vCol⟩]
-  else (nprLoop value minCol (lines.drop (vLine - 1)) vLine ((lines.getD (vLine - 2) []).length) vCol 0 []).reverse
+  else
+    let offs := (nprLoop value minCol (lines.drop (vLine - 1)) vLine ((lines.getD (vLine - 2) []).length) vCol 0 []).reverse
+    if offs.isEmpty then [⟨max (min vLine lines.length) 1, vCol, vCol⟩] else offs
 
 def posLen (prs : List PR) : Nat := (prs.map fun p => p.last + 1 - p.first).sum
 
-/-- `readRange(firstColumn, lastColumn, prs)`: the positions of value offsets first..last (1-indexed) -/
-def readRangeGo (first last : Nat) : List PR → Nat → List PR → List PR
-  | [], _, out => out
-  | p :: rest, idx, out =>
-    -- columns p.first .. p.last, each advancing idx
-    let n := p.last + 1 - p.first
-    let out' := (List.range n).foldl (fun o k => if idx + k + 1 ≥ first ∧ idx + k + 1 ≤ last then appendPos o p.line (p.first + k) else o) out
-    readRangeGo first last rest (idx + n) out'
+/-- every (line, column) cell a list of position ranges covers, in order -/
+def cells (prs : List PR) : List (Nat × Nat) :=
+  prs.flatMap fun p => (List.range (p.last + 1 - p.first)).map fun k => (p.line, p.first + k)
 
-def readRange (first last : Nat) (prs : List PR) : List PR := (readRangeGo first last prs 0 []).reverse
+/-- rebuild ranges from cells with `appendPosition` (adjacent cells of one line are merged) -/
+def compress (cs : List (Nat × Nat)) : List PR := (cs.foldl (fun acc c => appendPos acc c.1 c.2) []).reverse
 
-/-- the file text a list of positions points at; column `len+1` of a line reads as the line break (byte 10) -/
-def readback (lines : List (List Nat)) (prs : List PR) : List Nat :=
-  prs.flatMap fun p =>
-    let l := lines.getD (p.line - 1) []
-    (List.range (p.last + 1 - p.first)).map fun k => l.getD (p.first + k - 1) 10
+/-- `readRange(firstColumn, lastColumn, prs)`: the cells whose 1-based index lies in [first, last] -/
+def readRange (first last : Nat) (prs : List PR) : List PR :=
+  compress (((cells prs).drop (first - 1)).take (last - (first - 1)))
+
+/-- the byte at a cell; column `len+1` of a line reads as the line break (byte 10) -/
+def cellByte (lines : List (List Nat)) (c : Nat × Nat) : Nat := (lines.getD (c.1 - 1) []).getD (c.2 - 1) 10
+
+/-- the file text a list of positions points at -/
+def readback (lines : List (List Nat)) (prs : List PR) : List Nat := (cells prs).map (cellByte lines)
 
 end Pint.Position
